@@ -460,6 +460,21 @@ def fn_occurrences(fd):
     return out
 
 
+def _level_fresh_ids(TV, CV, nat):
+    """Variables only come from `fresh()`; their ids are an allocation detail the printer must not depend
+    on.  If type and const existentials draw their ids from separate supplies, a fresh process starts with
+    both supplies level; that situation is re-created here through the public API alone: read one id of
+    each kind and draw throw-away variables of the kind that lags behind.  With one shared supply (the
+    code as it stands) this draws a single variable and changes nothing."""
+    t = TV.fresh("lvl", True, True).id
+    c = CV.fresh("lvl", nat).id
+    for _ in range(min(abs(t - c), 20000)):
+        if c < t:
+            CV.fresh("lvl", nat)
+        else:
+            TV.fresh("lvl", True, True)
+
+
 def build_fn(fd, env):
     from guppylang_internals.tys import builtin as B
     from guppylang_internals.tys.arg import ConstArg, TypeArg
@@ -477,6 +492,8 @@ def build_fn(fd, env):
             par = ConstParam(i, name, B.nat_type(), from_comptime_arg=bool(hidden))
             vars[("bc", i)] = par.to_bound()
         params.append(par)
+    if len({kind for _, kind in fd["evars"]}) > 1:
+        _level_fresh_ids(ExistentialTypeVar, ExistentialConstVar, B.nat_type())
     for j, (name, kind) in enumerate(fd["evars"]):
         if kind == "type":
             vars[("ev", j)] = TypeArg(ExistentialTypeVar.fresh(name, True, True))
